@@ -306,6 +306,13 @@ int DetailedPlacement::siteEnd(int row, int pred) const {
   return next == -1 ? rows_[row].maxX : cellX(next);
 }
 
+namespace {
+bool rowAllowed(CellRowPolarity pol, const Row &row) {
+  return cellOrientationInRow(pol, row.orientation) !=
+         CellOrientation::INVALID;
+}
+}  // namespace
+
 bool DetailedPlacement::canPlace(int c, int row, int pred, int x) const {
   if (isPlaced(c)) {
     throw std::runtime_error("Cannot attempt to place already placed cell");
@@ -326,6 +333,10 @@ bool DetailedPlacement::canInsert(int c, int row, int pred) const {
     // Do not insert before itself
     return false;
   }
+  if (!rowAllowed(cellRowPolarity_[c], rows_[row])) {
+    // The polarity of the cell forbids this row
+    return false;
+  }
   return siteEnd(row, pred) - siteBegin(row, pred) >= cellWidth(c);
 }
 
@@ -335,6 +346,11 @@ bool DetailedPlacement::canSwap(int c1, int c2) const {
   }
   if (c1 == c2) {
     // Do not swap a cell with itself
+    return false;
+  }
+  if (!rowAllowed(cellRowPolarity_[c1], rows_[cellRow(c2)]) ||
+      !rowAllowed(cellRowPolarity_[c2], rows_[cellRow(c1)])) {
+    // The polarity of one of the cells forbids the row of the other
     return false;
   }
   if (cellPred(c1) == c2 || cellPred(c2) == c1) {
